@@ -267,6 +267,57 @@ Proof.
     unfold cg_lens; cbn. repeat split; auto; apply (@zeros_length SAR).
 Qed.
 
+(* ---- optimality over the span of the search directions ---- *)
+(* linear combinations of a list of vectors of F^n *)
+Inductive in_span (P : list (list R)) : list R -> Prop :=
+| span_zero : in_span P (repeat 0 n)
+| span_add w p c : in_span P w -> In p P -> in_span P (@zipw AR Rplus w (@vscale AR p c)).
+
+Lemma span_orth (P : list (list R)) (r w : list R) :
+  Forall (fun p => length p = n) P -> Forall (fun p => @dot_raw AR r p = 0) P -> in_span P w ->
+  length w = n /\ @dot_raw AR r w = 0.
+Proof.
+  intros Hl Ho. induction 1 as [|w p c Hw (Hwl & Hwo) Hp].
+  - split; [apply repeat_length | exact (@dot_raw_zeros_r SAR FLR r n)].
+  - rewrite Forall_forall in Hl, Ho. specialize (Hl p Hp). specialize (Ho p Hp). split.
+    + apply eq_trans with (length w); [|exact Hwl]. apply (@zipw_length SAR).
+      unfold vscale. rewrite map_length. exact (eq_trans Hwl (eq_sym Hl)).
+    + assert (E : @dot_raw AR r (@zipw AR Rplus w (@vscale AR p c)) = @dot_raw AR r w + @dot_raw AR r p * c).
+      { assert (Hlen : length w = length (@vscale AR p c)).
+        { unfold vscale. rewrite map_length. exact (eq_trans Hwl (eq_sym Hl)). }
+        etransitivity; [exact (@dot_raw_add_r SAR FLR r w (@vscale AR p c) Hlen)|].
+        apply (f_equal (Rplus (@dot_raw AR r w))). exact (@dot_raw_scale_r SAR FLR r p c). }
+      rewrite E, Hwo, Ho. lra.
+Qed.
+
+Lemma vscale_one_R (w : list R) : @vscale AR w 1 = w.
+Proof. unfold vscale. induction w as [|a w IH]; [reflexivity|]. cbn [map]. rewrite IH. f_equal. cbn. lra. Qed.
+
+(* at every state of a run the iterate is A-norm optimal over x + span(p_0 .. p_{k-1}) -- i.e. over
+   x0 + span of all search directions used so far: no combination of them improves the error *)
+Theorem cg_krylov_optimal_R s0 i s Rs Ps (b xs w : list R) :
+  PosSemi n mulA -> length xs = n -> length b = n -> mulA xs = Ok b ->
+  @cg_state_inv SAR n mulA s0 i s Rs Ps -> @tracks SAR mulA b (cg_x s) (cg_r s) ->
+  in_span Ps w ->
+  err xs (cg_x s) <= err xs (@zipw AR Rplus (cg_x s) w).
+Proof.
+  intros PSD Hxs Hb Exs HI (ax & Eax & Er) Hw.
+  destruct HI as ((Hx & Hr & Hp & Hz) & _ & _ & Hc).
+  assert (Hfacts : Forall (fun p => length p = n) Ps /\ Forall (fun p => @dot_raw AR (cg_r s) p = 0) Ps).
+  { destruct Hc as [(_ & _ & _ & ->)|(_ & HI)]; [split; constructor|].
+    destruct HI as (_ & _ & _ & HlP & _ & I1 & _). split; [exact HlP | exact I1]. }
+  destruct Hfacts as (HlP & Ho).
+  destruct (span_orth Ps (cg_r s) w HlP Ho Hw) as (Hwl & Hwo).
+  destruct (@lo_ok AR n mulA LO w Hwl) as (aw & Eaw & Hawl).
+  pose proof (@anorm2_line SAR FLR n mulA LO SYM b xs (cg_x s) ax w aw 1 Hxs Hx Hwl Hb Exs Eax Eaw) as E.
+  assert (E' : err xs (@zipw AR Rplus (cg_x s) w) =
+               err xs (cg_x s) - (1 + 1) * @dot_raw AR (cg_r s) w + 1 * 1 * @dot_raw AR w aw).
+  { rewrite <- (vscale_one_R w) at 1. etransitivity; [exact E|]. cbn [SA SAR] in Er |- *. rewrite <- Er.
+    reflexivity. }
+  rewrite E', Hwo. pose proof (PSD w aw Hwl Eaw). lra.
+Qed.
+
+
 (* ---- symmetric, not necessarily definite: breakdown or termination, nothing else ---- *)
 (* A symmetric (possibly indefinite or singular), tol >= 0, budget >= n: if solve_cg returns at all (in exact
    arithmetic a breakdown division is a panic), it returns Ok k with k <= n -- it can neither exhaust its
